@@ -46,6 +46,12 @@ FP = [('jedi/inference/imports.py', '_load_python_module'), ('jedi/inference/imp
       ('jedi/inference/gradual/typeshed.py', 'import_module_decorator'),
       ('jedi/inference/gradual/typeshed.py', '_try_to_load_stub'),
       ('jedi/inference/gradual/typeshed.py', 'parse_stub_module'),
+      ('jedi/inference/gradual/typeshed.py', '_load_from_typeshed'),
+      ('jedi/inference/gradual/typeshed.py', '_create_stub_map'),
+      ('jedi/inference/gradual/typeshed.py', '_merge_create_stub_map'),
+      ('jedi/inference/gradual/typeshed.py', '_cache_stub_file_map'),
+      ('jedi/inference/gradual/typeshed.py', 'try_to_load_stub_cached'),
+      ('jedi/inference/gradual/typeshed.py', '_try_to_load_stub_from_file'),
       ('jedi/inference/compiled/subprocess/functions.py', 'get_module_info'),
       ('jedi/inference/compiled/subprocess/functions.py', '_find_module'),
       ('jedi/inference/compiled/subprocess/functions.py', '_from_loader'),
@@ -443,10 +449,411 @@ def gen_history(seed, regime, nsteps):
 
 
 # ---------------------------------------------------------------------------------------------
+# Round 2: hist-stub.  Stubs of SUBMODULES of a user package (zqn2): jedi finds them either by a
+# direct probe of the path derived from the python file (mod.py -> mod.pyi, sub/__init__.py ->
+# sub/__init__.pyi, namespace dir -> sub/__init__.pyi, no python at all -> sub.pyi) or - typeshed.
+# _load_from_typeshed - through a LISTING of the package's __path__ (_create_stub_map): sub.pyi next
+# to a package directory sub/ or next to a namespace directory sub/, a stub package sub/__init__.pyi
+# next to a module sub.py.  The Coq model knows only the direct probes and one directory level, so
+# this stream is ORACLE-ONLY: the prescribed process vs a fresh process with empty caches on the
+# same files, strictly monotone timestamps (every difference is an unpredicted failure).
+# Files use the same (dir, name, ext) keys / ops / worker as the modelled streams.
+
+S_PKG = 2                 # zqn2, the user package
+S_SUBS = (5, 6)           # the sub-module names whose shape changes
+S_SIB = 7                 # zqn2/zqn7.py: written once, never touched again (warm-up by a sibling)
+S_MISSING = 8             # never exists (warm-up by a failing import below the package)
+S_INNER = 6               # zqn2/zqn5/zqn6.py: a module inside the sub-directory
+S_PYC = (201, 202, 203)   # python versions: zq_f() returns an instance of Zq_C<i>
+S_STC = (301, 302, 303)   # stub versions: zq_f() -> Zs_R<i>, zs_only() -> Zs_R<i> (stub-only name)
+S_P = (S_PKG,)
+
+
+def stub_contents():
+    out = {}
+    for i, c in enumerate(S_PYC, 1):
+        out[str(c)] = 'zq_a = 1\n' * (i - 1) + ('class Zq_C%d: pass\ndef zq_f():\n    return Zq_C%d()\nzq_k%d = %d\n' % (i, i, i, i))
+    for i, c in enumerate(S_STC, 1):
+        out[str(c)] = 'zs_a: int\n' * (i - 1) + ('class Zs_R%d: ...\ndef zq_f() -> Zs_R%d: ...\n'
+                                                 'def zs_only() -> Zs_R%d: ...\nzs_k%d: int\n' % (i, i, i, i))
+    return out
+
+
+def stub_expect(sh, s):
+    """(python kind, how the stub is found: direct | map | none, stub path) for zqn2.zqn<s> - bookkeeping
+    for the statistics and the potency check only, never used to judge an answer."""
+    D = S_P + (s,)
+    has = lambda k: k in sh.files
+    isdir = D in sh.dirs
+    if isdir and has((D, INIT, PY)):
+        py = 'pkg'
+    elif has((S_P, s, PY)):
+        py = 'mod'
+    elif isdir:
+        py = 'ns'
+    else:
+        py = 'none'
+    mod_pyi, init_pyi = has((S_P, s, PYI)), isdir and has((D, INIT, PYI))
+    direct = init_pyi if py in ('pkg', 'ns') else mod_pyi
+    viamap = has((S_P, INIT, PY)) and (mod_pyi if py in ('pkg', 'ns') else (init_pyi and py == 'mod'))
+    if direct:
+        return (py, 'direct', relfile(D, INIT, PYI) if py in ('pkg', 'ns') else relfile(S_P, s, PYI))
+    if viamap:
+        return (py, 'map', relfile(S_P, s, PYI) if py in ('pkg', 'ns') else relfile(D, INIT, PYI))
+    return (py, 'none', None)
+
+
+FI = dict(follow_imports=True)
+
+
+def stub_script(variant, subs):
+    """One Script of the stub stream -> raw query dict (path, code, probes, labels)."""
+    P = nm(S_PKG)
+    imports, body = [], []
+    path = 'zq_main.py'
+    if variant == 'abs':
+        for i, s in enumerate(subs):
+            full = P + '.' + nm(s)
+            imports += ['import %s' % full, 'from %s import zq_f as f%d' % (full, i),
+                        'from %s import zs_only as s%d' % (full, i), 'from %s import %s as m%d' % (P, nm(s), i)]
+            body += [('complete', full + '.z', None, {}, 'attr-complete', s), ('infer', 'f%d()' % i, None, {}, 'call-return', s),
+                     ('infer', 's%d()' % i, None, {}, 'stub-only-call', s), ('goto', 's%d' % i, 0, FI, 'stub-only-goto', s),
+                     ('goto', 'f%d' % i, 0, FI, 'func-goto', s), ('infer', 'm%d' % i, 0, {}, 'infer-module', s)]
+    elif variant == 'rel':
+        path = os.path.join(P, 'zq_rel.py')
+        for i, s in enumerate(subs):
+            imports += ['from .%s import zq_f as f%d' % (nm(s), i), 'from .%s import zs_only as s%d' % (nm(s), i),
+                        'from . import %s as m%d' % (nm(s), i)]
+            body += [('infer', 'f%d()' % i, None, {}, 'call-return', s), ('infer', 's%d()' % i, None, {}, 'stub-only-call', s),
+                     ('complete', 'm%d.z' % i, None, {}, 'attr-complete', s), ('infer', 'm%d' % i, 0, {}, 'infer-module', s)]
+    elif variant == 'star':
+        s = subs[0]
+        imports += ['from %s.%s import *' % (P, nm(s))]
+        body += [('infer', 'zq_f()', None, {}, 'call-return', s), ('infer', 'zs_only()', None, {}, 'stub-only-call', s),
+                 ('complete', 'zs_', None, {}, 'star-complete', s), ('goto', 'zq_f', 0, FI, 'func-goto', s)]
+    else:                     # 'sibling' / 'missing': resolves something else below the package
+        n = S_SIB if variant == 'sibling' else S_MISSING
+        full = P + '.' + nm(n)
+        imports += ['import %s' % full, 'from %s import zq_f as f0' % full]
+        body += [('complete', full + '.z', None, {}, 'attr-complete', n), ('infer', 'f0()', None, {}, 'call-return', n)]
+    probes, labels = [], []
+    for j, (meth, txt, col, kw, kind, s) in enumerate(body):
+        probes.append((meth, len(imports) + j + 1, len(txt) if col is None else col, dict(kw)))
+        labels.append((kind, s))
+    return dict(raw=True, kind=variant, pkg=None, targets=[], path=path,
+                code='\n'.join(imports + [b[1] for b in body]) + '\n', probes=probes, labels=labels)
+
+
+class StubGen:
+    def __init__(self, rng):
+        self.rng, self.sh, self.clock, self.steps = rng, Shadow(), 1, []
+        self.pending, self.before = [], {}
+        self.warm = set()        # processes that already ran a Script resolving something below zqn2
+        self.map_new = {}        # sub -> processes that were warm when its listing-only stub appeared
+        self.events = {}
+
+    def tick(self):
+        self.clock += self.rng.choice((1, 1, 2, 3))
+        return self.clock
+
+    # -- one mutation step = a few ops; every timestamp is a fresh tick (strictly monotone history)
+    def begin(self):
+        self.pending = []
+        self.before = {s: stub_expect(self.sh, s) for s in S_SUBS}
+
+    def op(self, *op):
+        if self.sh.apply(op):
+            self.pending.append(op)
+            return True
+        return False
+
+    def write(self, key, code):
+        d, n, e = key
+        if d not in self.sh.dirs:
+            self.mkdir(d[:-1], d[-1])
+        return self.op('write', d, n, e, code, self.tick(), self.tick())
+
+    def delete(self, key):
+        return self.op('delete', key[0], key[1], key[2], self.tick())
+
+    def mkdir(self, d, n):
+        return self.op('mkdir', d, n, self.tick(), self.tick())
+
+    def rmdir(self, d, n):
+        return self.op('rmdir', d, n, self.tick())
+
+    def commit(self):
+        if not self.pending:
+            return False
+        self.steps.append(('mut', ('ops',), self.pending))
+        for s in S_SUBS:
+            a, b = self.before[s], stub_expect(self.sh, s)
+            if a != b:
+                ev = '%s/%s -> %s/%s' % (a[0], a[1], b[0], b[1])
+                self.events[ev] = self.events.get(ev, 0) + 1
+            elif a[2] is not None:
+                key = next(k for k in self.sh.files if relfile(*k) == a[2])
+                if any(op[0] == 'write' and op[1:4] == key for op in self.pending):
+                    ev = '%s/%s rewritten' % (a[0], a[1])
+                    self.events[ev] = self.events.get(ev, 0) + 1
+            if b[1] == 'map' and (a[1] != 'map' or a[2] != b[2]):
+                self.map_new[s] = set(self.warm)
+            elif b[1] != 'map':
+                self.map_new.pop(s, None)
+        self.pending = []
+        return True
+
+    def code_for(self, key):
+        pool = S_STC if key[2] == PYI else S_PYC
+        cur = self.sh.files.get(key)
+        return self.rng.choice([c for c in pool if cur is None or c != cur[1]])
+
+    def put(self, key):
+        """create or rewrite (another version); makes the directory when it is missing"""
+        return self.write(key, self.code_for(key))
+
+    def toggle(self, key):
+        if key in self.sh.files and self.rng.random() < 0.5:
+            return self.delete(key)
+        return self.put(key)
+
+    @staticmethod
+    def k_mod(s, e):
+        return (S_P, s, e)
+
+    @staticmethod
+    def k_init(s, e):
+        return (S_P + (s,), INIT, e)
+
+    def set_py(self, s, kind):
+        if kind == 'mod':
+            self.put(self.k_mod(s, PY))
+        elif kind == 'pkg':
+            self.put(self.k_init(s, PY))
+            if self.rng.random() < 0.5:
+                self.put((S_P + (s,), S_INNER, PY))
+        elif kind == 'ns':
+            self.put((S_P + (s,), S_INNER, PY))
+
+    # -- steps
+    def query(self, pid, variant, subs):
+        q = stub_script(variant, list(subs))
+        q['expect'] = {str(s): list(stub_expect(self.sh, s)) for s in S_SUBS}
+        q['map_after_warm'] = sorted(s for s in subs if pid in self.map_new.get(s, ()))
+        self.steps.append(('query', pid, self.tick(), q))
+        self.warm.add(pid)
+
+    def newproc(self, pid):
+        self.steps.append(('newproc', pid))
+        self.warm.discard(pid)
+        for v in self.map_new.values():
+            v.discard(pid)
+
+    def project(self, kinds, regular=True):
+        self.begin()
+        self.mkdir((), S_PKG)
+        if regular:
+            self.put((S_P, INIT, PY))
+        self.put((S_P, S_SIB, PY))
+        for s, kind in kinds.items():
+            self.set_py(s, kind)
+        self.commit()
+
+    def random_mutation(self):
+        rng = self.rng
+        for _ in range(20):
+            s = rng.choice(S_SUBS)
+            D = S_P + (s,)
+            self.begin()
+            r = rng.choices(('stub_mod', 'stub_init', 'py_mod', 'py_init', 'inner', 'rmdir', 'mkdir', 'top_init', 'move_stub'),
+                            (4, 3, 2, 2, 0.7, 1, 0.7, 0.4, 1.5))[0]
+            if r == 'stub_mod':
+                self.toggle(self.k_mod(s, PYI))
+            elif r == 'stub_init':
+                self.toggle(self.k_init(s, PYI))
+            elif r == 'py_mod':
+                self.toggle(self.k_mod(s, PY))
+            elif r == 'py_init':
+                self.toggle(self.k_init(s, PY))
+            elif r == 'inner':
+                self.toggle((D, S_INNER, PY))
+            elif r == 'rmdir':
+                self.rmdir(S_P, s)
+            elif r == 'mkdir':
+                self.mkdir(S_P, s)
+            elif r == 'top_init':
+                self.toggle((S_P, INIT, PY))
+            else:             # the stub changes place in one step (a stale listing would still name the old file)
+                a, b = self.k_mod(s, PYI), self.k_init(s, PYI)
+                if (a in self.sh.files) != (b in self.sh.files):
+                    src, dst = (a, b) if a in self.sh.files else (b, a)
+                    self.delete(src)
+                    self.put(dst)
+            if self.commit():
+                return True
+        return False
+
+
+# directed family: (python side of zqn2.zqn5, where the stub goes, what the earlier Script resolved)
+STUB_DIRECTED = [
+    ('pkg', 'mod', 'same'), ('pkg', 'mod', 'sibling'),          # sub.pyi next to the package directory sub/
+    ('ns', 'mod', 'same'), ('ns', 'mod', 'missing'),            # sub.pyi next to the namespace directory sub/
+    ('mod', 'init', 'same'), ('mod', 'init', 'sibling'),        # stub package sub/__init__.pyi next to sub.py
+    ('mod', 'mod', 'same'),                                     # the ordinary pair
+    ('pkg', 'init', 'same'),                                    # sub/__init__.py + sub/__init__.pyi
+    ('ns', 'init', 'sibling'),                                  # namespace directory + sub/__init__.pyi
+    ('none', 'mod', 'same'),                                    # stub alone
+]
+
+
+def gen_stub_directed(idx, seed):
+    py_kind, loc, warm = STUB_DIRECTED[idx]
+    rng = random.Random(seed)
+    g = StubGen(rng)
+    s, ctl = S_SUBS
+    here = g.k_mod(s, PYI) if loc == 'mod' else g.k_init(s, PYI)
+    other = g.k_init(s, PYI) if loc == 'mod' else g.k_mod(s, PYI)
+    g.project({s: py_kind, ctl: 'mod'})
+    g.begin()
+    g.put(g.k_mod(ctl, PYI))                  # control: zqn6.py + zqn6.pyi from the start
+    g.commit()
+    if warm == 'same':
+        g.query(0, 'abs', (s, ctl))
+    else:
+        g.query(0, warm, ())
+    g.begin(); g.put(here); g.commit()        # 1 the stub appears
+    g.query(0, 'abs', (s, ctl))
+    g.query(0, 'star', (s,))
+    g.begin(); g.put(here); g.commit()        # 2 rewritten
+    g.query(0, 'abs', (s, ctl))
+    g.newproc(1)
+    g.query(1, 'abs', (s, ctl))
+    g.begin()                                 # 3 deleted (a stub package: the whole directory every other time)
+    if loc == 'init' and py_kind == 'mod' and idx % 2 == 0:
+        g.rmdir(S_P, s)
+    else:
+        g.delete(here)
+    g.commit()
+    g.query(0, 'abs', (s, ctl))
+    g.query(0, 'rel', (s, ctl))
+    g.begin(); g.put(here)                    # 4 back again, python side rewritten in the same step
+    if py_kind == 'mod':
+        g.put(g.k_mod(s, PY))
+    elif py_kind == 'pkg':
+        g.put(g.k_init(s, PY))
+    g.commit()
+    g.query(0, 'rel', (s, ctl))
+    g.query(0, 'abs', (s, ctl))
+    g.query(1, 'star', (s,))
+    g.begin(); g.delete(here); g.put(other); g.commit()     # 5 the stub moves to the other place
+    g.query(0, 'abs', (s, ctl))
+    g.query(1, 'abs', (s, ctl))
+    return dict(seed='stub-directed-%d-%s-%s-%s' % (idx, py_kind, loc, warm), regime='stub', contents=stub_contents(),
+                sigs={}, steps=g.steps, events=g.events)
+
+
+def gen_stub_random(seed, nsteps):
+    rng = random.Random(seed)
+    g = StubGen(rng)
+    g.project({s: rng.choice(('mod', 'pkg', 'ns', 'none', 'pkg', 'ns')) for s in S_SUBS}, regular=rng.random() < 0.9)
+    if rng.random() < 0.4:
+        g.random_mutation()
+    g.query(0, rng.choice(('abs', 'abs', 'sibling', 'missing')), S_SUBS)
+    if rng.random() < 0.4:
+        g.newproc(1)
+        g.query(1, 'abs', S_SUBS)
+    for _ in range(nsteps):
+        for _ in range(rng.choice((1, 1, 1, 2))):
+            g.random_mutation()
+        r = rng.random()
+        if r < 0.85:
+            v = rng.choice(('abs', 'abs', 'abs', 'rel', 'star'))
+            g.query(0, v, S_SUBS if v != 'star' else (rng.choice(S_SUBS),))
+            if rng.random() < 0.3:
+                g.query(0, rng.choice(('rel', 'star', 'abs')), (rng.choice(S_SUBS),))
+        if r > 0.6:
+            if rng.random() < 0.7:
+                g.newproc(1)
+            g.query(1, rng.choice(('abs', 'abs', 'rel')), S_SUBS)
+        if rng.random() < 0.05:
+            g.newproc(0)
+    return dict(seed=seed, regime='stub', contents=stub_contents(), sigs={}, steps=g.steps, events=g.events)
+
+
+def evaluate_stub(ctx, hists, results):
+    """Oracle only: every probe of the prescribed process against the fresh empty-cache process."""
+    stats = dict(stub_histories=0, stub_queries=0, stub_probes=0, stub_stale_probes=0, stub_exceptions=0,
+                 stub_helper_replaced=0, stub_oracle_answers_from_pyi=0, stub_listing_only_after_earlier_query=0,
+                 stub_probe_kinds={}, stub_shapes_at_query={}, stub_transitions={}, stub_spawns=0)
+    for hist, res in zip(hists, results):
+        if 'error' in res:
+            raise RuntimeError('history %r could not be executed: %s\n%s' % (hist['seed'], res['error'], res.get('tb')))
+        stats['stub_spawns'] += res.get('spawns', 0)
+        qs = [st for st in norm_steps(hist['steps']) if st[0] == 'query']
+        assert len(qs) == len(res['results']), (len(qs), len(res['results']))
+        if any(r['helper_replaced'] for r in res['results']):
+            stats['stub_helper_replaced'] += 1
+            continue
+        stats['stub_histories'] += 1
+        for ev, n in hist.get('events', {}).items():
+            stats['stub_transitions'][ev] = stats['stub_transitions'].get(ev, 0) + n
+        for qi, (st, rr) in enumerate(zip(qs, res['results'])):
+            _, pid, tq, q = st
+            stats['stub_queries'] += 1
+            for s, e in q['expect'].items():
+                k = '%s/%s' % (e[0], e[1])
+                stats['stub_shapes_at_query'][k] = stats['stub_shapes_at_query'].get(k, 0) + 1
+            for pi, (kind, s) in enumerate(q['labels']):
+                stats['stub_probes'] += 1
+                stats['stub_probe_kinds'][kind] = stats['stub_probe_kinds'].get(kind, 0) + 1
+                pair, failed = [], False
+                for which in ('obs', 'orc'):
+                    rows = rr[which]
+                    rows = rows[pi] if isinstance(rows, list) else rows
+                    if isinstance(rows, dict):
+                        stats['stub_exceptions'] += 1
+                        sig = rows['exc']
+                        ctx.deviation(dict(stream='stub', exc=sig['exc'], site=sig['site']),
+                                      dict(history=hist, script=rr['code'], path=rr['path'], which=which, error=sig),
+                                      'the API raised %s in the %s process' % (sig['exc'], which))
+                        failed = True
+                    else:
+                        pair.append(canon_rows(rows, F_ATTR if kind.endswith('complete') else F_INFER))
+                if failed:
+                    ctx.count('hist-stub', (hist['seed'], qi, pi), nontrivial=False)
+                    continue
+                raw_o, raw_f = pair
+                exp = q['expect'].get(str(s))
+                from_pyi = any(r[3] is not None and str(r[3]).endswith('.pyi') for r in raw_f)
+                stats['stub_oracle_answers_from_pyi'] += from_pyi
+                if exp and exp[1] == 'map' and s in q['map_after_warm'] and any(r[3] == exp[2] for r in raw_f):
+                    stats['stub_listing_only_after_earlier_query'] += 1
+                ctx.count('hist-stub', (hist['seed'], qi, pi), nontrivial=bool(raw_f) or bool(raw_o))
+                if raw_o != raw_f:
+                    stats['stub_stale_probes'] += 1
+                    obs_pyi = any(r[3] is not None and str(r[3]).endswith('.pyi') for r in raw_o)
+                    where = dict(history_seed=hist['seed'], regime='stub', query=qi, probe=pi, pid=pid, probe_kind=kind,
+                                 module='%s.%s' % (nm(S_PKG), nm(s)), shape=exp, script=rr['code'], script_path=rr['path'],
+                                 observed=raw_o, fresh_empty_cache_process=raw_f)
+                    ctx.deviation(dict(stream='stub-history', predicted_by_model=False, fresh_answers_from_stub=from_pyi,
+                                       observed_answers_from_stub=obs_pyi),
+                                  dict(where=where, history=hist),
+                                  'a Script in process %d answers differently from a fresh process with an empty cache '
+                                  '(%s of %s.%s, python side %s, stub found by %s); monotone timestamps, no model '
+                                  'prediction for this stream' % (pid, kind, nm(S_PKG), nm(s), exp and exp[0], exp and exp[1]))
+                elif len(ctx.cov['samples']) < 8 and exp and exp[1] == 'map' and s in q['map_after_warm'] and from_pyi:
+                    ctx.sample(dict(stream='hist-stub', history=hist['seed'], probe=kind, process=pid, shape=exp,
+                                    answer=[list(r) for r in raw_f][:4]), limit=8)
+    return stats
+
+
+# ---------------------------------------------------------------------------------------------
 # script text for one query
 
 def build_script(q):
     """-> (relative script path, code, probes) ; probe = (method, line, col, kwargs)."""
+    if q.get('raw'):          # hist-stub stream: the generator wrote the Script itself
+        return q['path'], q['code'], [(p[0], p[1], p[2], dict(p[3])) for p in q['probes']]
     kind, pkg = q['kind'], q['pkg']
     imports, probes_txt = [], []
     for i, (ch, form, arg, style) in enumerate(q['targets']):
@@ -819,6 +1226,12 @@ BASE_FP = {
     'jedi/inference/gradual/typeshed.py:import_module_decorator': '00e06859632277a9',
     'jedi/inference/gradual/typeshed.py:_try_to_load_stub': '155ba182e70c12d9',
     'jedi/inference/gradual/typeshed.py:parse_stub_module': '7f34b3f08937a330',
+    'jedi/inference/gradual/typeshed.py:_load_from_typeshed': '937de0d461de9283',
+    'jedi/inference/gradual/typeshed.py:_create_stub_map': '3cb81e72e0dc886a',
+    'jedi/inference/gradual/typeshed.py:_merge_create_stub_map': '35718cb4d470ad8c',
+    'jedi/inference/gradual/typeshed.py:_cache_stub_file_map': 'e87252b5efe58818',
+    'jedi/inference/gradual/typeshed.py:try_to_load_stub_cached': 'e0878bc92722ddbc',
+    'jedi/inference/gradual/typeshed.py:_try_to_load_stub_from_file': '4174ba01e35b605d',
     'jedi/inference/compiled/subprocess/functions.py:get_module_info': '956dd70fbd60f509',
     'jedi/inference/compiled/subprocess/functions.py:_find_module': 'f83bfc60d96e682a',
     'jedi/inference/compiled/subprocess/functions.py:_from_loader': '4df9a8c54b9a97e4',
@@ -1073,9 +1486,13 @@ def run(ctx):
     ctx.cov['fingerprints'] = fps
     changed = sorted(k for k in fps if BASE_FP.get(k) != fps[k])
     ctx.cov['intensified'] = changed
-    mult = 2 if (changed and ctx.quick) else 1
+    # a change confined to the stub lookup (typeshed.py) intensifies the stub stream only
+    changed_stub = [k for k in changed if 'gradual/typeshed.py' in k]
+    mult = 2 if (len(changed) > len(changed_stub) and ctx.quick) else 1
+    mult_stub = 2 if (changed_stub and ctx.quick) else 1
     scale = float(os.environ.get('C09_SCALE', '1'))      # debugging aid: 0 = witnesses only
     n_mono, n_adv = int(ctx.n(10, 60) * mult * scale), int(ctx.n(16, 100) * mult * scale)
+    n_stub = int(ctx.n(6, 40) * mult_stub * scale)
     lo, hi = ctx.n(4, 6), ctx.n(8, 12)
     ctx.cov['rule'] = (
         'witness: 5 fixed histories (the refutation witnesses of Props/C09.v + a monotone control); '
@@ -1085,7 +1502,15 @@ def run(ctx):
         'a just-restarted process sharing the pickle directory, 2-4 import probes per Script (attr-complete, '
         'star-complete, infer-module, from-goto; absolute and relative); every probe is also asked of a fresh '
         'process with an empty cache directory; one evaluation = one probe; non-trivial = something is resolved; '
-        'distinct by (history, query, probe)')
+        'distinct by (history, query, probe); '
+        'hist-stub (oracle only, monotone timestamps): %d directed histories (python side of zqn2.zqn5 = package '
+        'directory / namespace directory / module / nothing x stub = zqn5.pyi or zqn5/__init__.pyi x the earlier '
+        'Script of the process resolved the same name / a sibling / a missing name; stub created, rewritten, '
+        'deleted, re-created together with a python rewrite, moved to the other place; zqn6.py+zqn6.pyi as '
+        'control) + seeded random walks over the files zqn2/{__init__.py, zqn5.py, zqn5.pyi, zqn5/, zqn5/__init__.py, '
+        'zqn5/__init__.pyi, zqn5/zqn6.py} and the same for zqn6; Scripts: absolute / relative / star imports with '
+        'attr-complete, call-return (stub annotation names another user class than the python body returns), '
+        'stub-only call and goto, func-goto, infer-module; processes 0 and 1 long-lived or just restarted' % len(STUB_DIRECTED))
     ctx.assumptions += [
         'parso cache, importlib FileFinder and jedi stub lookup are modelled (dependencies), validated only by these streams',
         'a "process" is a fork of a worker that imported jedi but never created a Script/helper/tree; it starts its own helper',
@@ -1093,30 +1518,50 @@ def run(ctx):
         'parso\'s in-memory cache eviction (>= 600 entries) and 30-day pickle cleanup are out of reach of <= 8 module projects',
         'jedi replaces its cached default environment (and helper) after 10 minutes: histories that take longer are dropped and counted',
     ]
-    hists = witness_histories()
+    only_stub = os.environ.get('C09_ONLY') == 'stub'      # debugging aid: the oracle-only stream alone
+    if only_stub:
+        n_mono = n_adv = 0
+    hists = [] if only_stub else witness_histories()
     for i in range(n_mono):
         hists.append(gen_history(ctx.rng.randrange(1 << 40), 'mono', ctx.rng.randint(lo, hi)))
     for i in range(n_adv):
         hists.append(gen_history(ctx.rng.randrange(1 << 40), 'adv', ctx.rng.randint(lo, hi)))
+    # Round 2: oracle-only stub stream (drawn after the modelled streams: their inputs per seed are unchanged)
+    stub_hists = []
+    if scale > 0:
+        for i in range(len(STUB_DIRECTED)):
+            stub_hists.append(gen_stub_directed(i, ctx.rng.randrange(1 << 40)))
+        for i in range(n_stub):
+            stub_hists.append(gen_stub_random(ctx.rng.randrange(1 << 40), ctx.rng.randint(lo, hi)))
     os.makedirs(PYC_DIR, exist_ok=True)
     import subprocess
     subprocess.run([common.PY, '-c', 'import jedi, jedi.inference.compiled.subprocess.functions, jedi.api.environment'],
                    env=_bytecode_env(common.jedi_env()), cwd=ctx.tmp, timeout=600)    # warm the bytecode cache once
     t = time.time()
-    results = common.pmap(run_history, hists, chunksize=1, timeout=7200)
+    results = common.pmap(run_history, hists + stub_hists, chunksize=1, timeout=7200)
     ctx.stat('wall_histories', round(time.time() - t, 1))
+    results, stub_results = results[:len(hists)], results[len(hists):]
     t = time.time()
     stats = evaluate(ctx, hists, results)
     ctx.stat('wall_coq', round(time.time() - t, 1))
     for k, v in stats.items():
         ctx.stat(k, v)
+    if stub_hists:
+        sstats = evaluate_stub(ctx, stub_hists, stub_results)
+        for k, v in sstats.items():
+            ctx.stat(k, v)
+        if sstats['stub_histories'] >= len(STUB_DIRECTED) and not sstats['stub_listing_only_after_earlier_query']:
+            ctx.violation('obligation', dict(what='hist-stub lost its power: no probe was answered from a stub that is only '
+                                                  'found through the listing of the package directory and that appeared after '
+                                                  'an earlier Script of the same process (generator or jedi stub lookup changed)'),
+                          nofail=True)
     ctx.stat('history_lengths', sorted(len(h['steps']) for h in hists)[::max(1, len(hists) // 10)])
     if stats['helper_replaced'] > len(hists) // 3:
         ctx.violation('obligation', dict(what='more than a third of the histories took longer than jedi\'s 10-minute '
                                               'environment cache: the machine is too loaded for this check'), nofail=True)
     # the refutation witnesses must really be stale on the implementation (they are the known findings)
     seen = ctx.cov.get('deviation_histogram', {})
-    for name in ('same_or_older_mtime', 'mtime_not_after_pickle', 'dir_mtime_unchanged'):
+    for name in () if only_stub else ('same_or_older_mtime', 'mtime_not_after_pickle', 'dir_mtime_unchanged'):
         if not any(json.loads(k).get(name) for k in seen):
             ctx.violation('obligation', dict(what='refutation witness %s of C09_stale_without_monotone_refuted is not '
                                                   'reproduced by the implementation (model and code disagree on the '
@@ -1136,6 +1581,19 @@ def replay(ctx, path):
         print('history failed:', res['error'], res.get('tb'))
         return 0
     qs = [st for st in norm_steps(hist['steps']) if st[0] == 'query']
+    if hist.get('regime') == 'stub':      # oracle-only stream: no model side
+        for qi, (st, rr) in enumerate(zip(qs, res['results'])):
+            print('query %d pid %d %s (%s), shapes %s' % (qi, st[1], st[3]['kind'], rr['path'], st[3]['expect']))
+            for pi, (kind, s) in enumerate(st[3]['labels']):
+                o = rr['obs'][pi] if isinstance(rr['obs'], list) else rr['obs']
+                f = rr['orc'][pi] if isinstance(rr['orc'], list) else rr['orc']
+                fm = F_ATTR if kind.endswith('complete') else F_INFER
+                same = canon_rows(o, fm) == canon_rows(f, fm)
+                print('  probe %d %s %s: %s' % (pi, kind, nm(s), 'same as the fresh empty-cache process' if same else 'DIFFERENT'))
+                if not same:
+                    print('     implementation:', canon_rows(o, fm))
+                    print('     fresh process :', canon_rows(f, fm))
+        return 0
     decoded = []
     for qi, (st, rr) in enumerate(zip(qs, res['results'])):
         row = []
